@@ -8,6 +8,7 @@ import WtfModel.Props.C01
 #print axioms Wtf.C01.fuzzy_scores_unit_interval
 #print axioms Wtf.C01.error_only_in_typo_matcher
 #print axioms Wtf.C01.nonempty_of_match
+#print axioms Wtf.C01.factor_stage_preserves
 #print axioms Wtf.C01.legacy_pipeline
 #print axioms Wtf.C01.legacy_limit_in_force
 #print axioms Wtf.C01.cli
